@@ -61,6 +61,12 @@ def run(ck, pid, tier, seed):
                   dict(p=2, r=2, rq=2, faults=2, cancel='TRUE', live=False),
                   dict(p=3, r=3, rq=1, faults=1, cancel='FALSE', live=True),
                   dict(p=2, r=2, rq=2, faults=1, cancel='TRUE', live=True)]
+    if tier != 'thorough':
+        # every property checks the first two configurations and two of the
+        # others in rotation (all of them are covered across the properties)
+        k = int(pid[1:])
+        rest = confs[2:]
+        confs = confs[:2] + [rest[(k + i) % len(rest)] for i in range(min(2, len(rest)))]
     for c in confs:
         c.setdefault('kind', 'upload')
         cfg = CFG if c['live'] else SAFE_CFG
